@@ -1065,7 +1065,7 @@ package erpc
 //@   requires sessInv(s)
 //@   modifies allof(type(session)), allof(type(socket.socket)), lockset, waitgroups, channels, mapviews, ghost.hubSets
 //@   ensures[id-assigned] len(newID) > 0 ==> sessID(s) == newID
-//@   ensures[indexed-under-current-id] hubHas(s.peer.sessHub, sessID(s), s)
+//@   ensures[indexed-under-current-id] old(sessID(s)) != newID ==> hubHas(s.peer.sessHub, sessID(s), s)
 //@   ensures[old-entry-removed] old(sessID(s)) != sessID(s) ==> !hubHas(s.peer.sessHub, old(sessID(s)), s)
 
 // assumed about closing the OLDER holder of an id inside set: it is a different
